@@ -141,6 +141,7 @@ type srvCfg struct {
 	rest  bool     // enable the REST listener
 	dir   string   // instance directory ("" = a new one)
 	state string   // state file path ("" = <dir>/state.bin)
+	sock  string   // IPC socket path ("" = <dir>/ipc<n>.sock)
 	extra []string // further flags (security, server tuning)
 }
 
@@ -174,6 +175,9 @@ func startServer(t *testing.T, c srvCfg) *proc {
 	p := &proc{out: &syncBuf{}, done: make(chan struct{}), dir: c.dir, state: c.state}
 	p.grpcAddr = fmt.Sprintf("127.0.0.1:%d", freePort(t))
 	p.sock = filepath.Join(c.dir, fmt.Sprintf("ipc%d.sock", sockSeq.Add(1)))
+	if c.sock != "" {
+		p.sock = c.sock
+	}
 	p.args = []string{"--listen_address", p.grpcAddr, "--ipc_socket_file", p.sock, "--state_file", p.state}
 	if c.rest {
 		p.restAddr = fmt.Sprintf("127.0.0.1:%d", freePort(t))
